@@ -449,6 +449,9 @@ pub fn run(ctx: &Ctx) -> i32 {
         all_fix &= !st.capped;
         per_cfg.push(stats_json(name, &st));
     }
+    // ---- a chain far deeper than the explored namespaces: remove_all and the listings reach the bottom
+    crate::models::deep::report_main("removal", crate::models::deep::removal("memfs", &rivia::prelude::Memfs::new(), "/e"));
+    crate::models::deep::report_main("traversal", crate::models::deep::traversal("memfs", &rivia::prelude::Memfs::new(), "/e"));
     // ---- labelled sampling supplement (never decides alone): long seeded random histories over a
     // larger namespace ({a,b,c}, depth 3), every step compared with RefFs like the exhaustive part
     let (walks, walk_steps) = random_walks(ctx);
